@@ -419,6 +419,30 @@ def routing_suite(tier, seed, algos=("ID", "SRC", "XY"), want=None):
             sides = rng.choice(side_sets[:6])
             out.append(mesh(rng, m, n, algo, rng.random() < 0.3, sides=sides, partial=part,
                             cluster_role=rng.choice(["ms", "m", "s"]), side_role=rng.choice(["s", "ms"])))
+        # a router row that is NOT auto-connected, chained by one explicit range connection without directions: the two
+        # links of every pair must still sit on one port index at either end
+        if algo == "XY" or not q:
+            for m in ((3,) if q else (3, 4)):
+                dd, tt = mesh(rng, m, 1, algo, False, force_dir=True)
+                if dd is not None:
+                    dd = json.loads(json.dumps(dd))
+                    dd["routers"][0]["auto_connect"] = False
+                    dd["connections"].append({"src": "router", "dst": "router", "src_range": [[0, m - 2], [0, 0]],
+                                              "dst_range": [[1, m - 1], [0, 0]]})
+                    out.append((dd, dict(tt, topo="row-by-hand")))
+        # derived routing fields written by the user (the generator derives them anyway: a given value must not survive
+        # into counts, widths or the configuration record)
+        for _ in range(2 if q else 6):
+            if algo == "XY":
+                dd, tt = mesh(rng, 2, 2, algo, rng.random() < 0.3, sides=("W",))
+            else:
+                k = rng.randint(3, 5)
+                dd, tt = star(rng, k, algo, rng.random() < 0.3, order=rng.sample(range(k), k), conn_order=rng.sample(range(k), k))
+            if dd is not None:
+                dd = json.loads(json.dumps(dd))
+                dd["routing"].update({"num_endpoints": 8 + rng.randint(0, 9), "num_id_bits": 6, "num_x_bits": 4, "num_y_bits": 3,
+                                      "num_route_bits": 31, "addr_offset_bits": 20})
+                out.append((dd, dict(tt, topo="explicit-routing-fields")))
         # routers of degree 4: no local port at all, every endpoint on a boundary port (port-count parameters and
         # select widths below the five compass ports)
         for (m, n, sides) in ([(2, 2, ("W", "E")), (2, 1, ("S", "N"))] if q else
@@ -474,6 +498,11 @@ def address_suite(tier, seed):
                        dict(name="dram", array=[2], **_roles(nw, "s"), addr_range={"base": top - 2 * size, "size": size}),
                        ]
                 out.append((_addr_star(rng, algo, nw, aw, eps), {"topo": "star", "layout": "array-ends-at-top", "aw": aw}))
+                # an array below the top whose range is written with an `idx` (overwritten per element): valid as long as
+                # element num-1 ends within 2^aw, whatever the written idx would add
+                eps = [dict(name="cpu", **_roles(nw, "ms"), addr_range={"start": 0, "end": size}),
+                       dict(name="dram", array=[4], **_roles(nw, "s"), addr_range={"base": top - 5 * size, "size": size, "idx": 3})]
+                out.append((_addr_star(rng, algo, nw, aw, eps), {"topo": "star", "layout": "array-with-idx-near-top", "aw": aw}))
                 eps = [dict(name="hi", **_roles(nw, "ms"), addr_range={"start": top - size, "end": top}),
                        dict(name="mid", **_roles(nw, "m")),
                        dict(name="lo", **_roles(nw, "s"), addr_range=[{"start": 4 * size, "size": size, "desc": "b"},
@@ -580,6 +609,18 @@ def conflict_suite(tier, seed):
             d["endpoints"].append(e)
             d["connections"].append({"src": "dup", "dst": "router", "dst_idx": [0, 0], "dst_dir": "West"})
             out.append((d, {"topo": "conflict", "defect": "xy-same-coordinate", "expect": "reject", "via": "xy_id_offset"}))
+    # a multi-connection between the leaves of a router tree and a router array whose counts do not divide (3:2, 5:3,
+    # 4:3): nothing else catches it (every router stays reachable), so the count check itself must refuse it
+    for algo in ("ID", "SRC"):
+        for (a, b) in ((3, 2), (5, 3), (4, 3)):
+            d = header("uneven", False, algo)
+            alloc = Alloc(rng)
+            d["endpoints"] = [mk_ep("core", "ms", False, rng, alloc, array=[a]), mk_ep("mem", "s", False, rng, alloc, array=[b])]
+            d["routers"] = [{"name": "tr", "tree": [1, a]}, {"name": "hub", "array": [b, 1], "auto_connect": False}]
+            d["connections"] = [{"src": "core", "dst": "tr", "src_range": [[0, a - 1]], "dst_lvl": 1},
+                                {"src": "hub", "dst": "mem", "src_range": [[0, b - 1], [0, 0]], "dst_range": [[0, b - 1]]},
+                                {"src": "tr", "dst": "hub", "src_lvl": 1, "dst_range": [[0, b - 1], [0, 0]], "allow_multi": True}]
+            out.append((d, {"topo": "conflict", "defect": "multi-not-dividable-routers", "expect": "reject", "counts": [a, b]}))
     # an endpoint connected to TWO routers (its interface has one port only): whatever floogen does with it, an accepted
     # description must not declare link signals that lack their driver or reader
     for algo in ("ID", "SRC"):
@@ -658,6 +699,14 @@ def detour_suite(tier, seed):
                         d["connections"].append({"src": "router", "dst": "router", "src_idx": [x, 0], "dst_idx": [x, n - 1],
                                                  "src_dir": "South", "dst_dir": "North"})
                     out.append((d, {"topo": "torus-y", "m": m, "n": n}))
+    # router trees with a shortcut: a link between two siblings (or two cousins) makes the way over the common ancestor
+    # longer than the shortest way the emitted wiring offers
+    for algo in ("ID", "SRC"):
+        for levels, a, b in (((1, 3), [0, 0], [0, 1]), ((1, 2, 2), [0, 0, 1], [0, 1, 0]), ((1, 3), [0, 0], [0, 2])):
+            d, t = tree(rng, levels, algo, rng.random() < 0.3, leaves_per_router=1, root_eps=1, roles=["ms"])
+            d = json.loads(json.dumps(d))
+            d["connections"].append({"src": "router", "dst": "router", "src_idx": a, "dst_idx": b})
+            out.append((d, dict(t, topo="tree-shortcut")))
     # two endpoints joined by a lattice of transit-only routers with a cross link: cpu - r3 - {r0, r1} - r2 - mem, r0 - r1,
     # and a spare router r4 behind r1 / r2; declaration orders as written and shuffled
     for algo in ("ID", "SRC"):
